@@ -59,6 +59,7 @@ type Ctx struct {
 	Res      *Result
 	seen     map[[16]byte]struct{}
 	maxCases int
+	perSig   map[string]int
 }
 
 func (c *Ctx) Thorough() bool { return c.Tier == "thorough" }
@@ -114,7 +115,13 @@ func (c *Ctx) Disagree(cs Case) {
 }
 
 func (c *Ctx) Violate(cs Case) {
-	if len(c.Res.Violations) < c.maxCases {
+	// keep a few cases per signature so that every distinct failure is reported
+	key := cs.Entry + "|" + cs.Kind + "|" + cs.Frame + "|" + cs.Class
+	if c.perSig == nil {
+		c.perSig = map[string]int{}
+	}
+	c.perSig[key]++
+	if c.perSig[key] <= 3 && len(c.Res.Violations) < 4*c.maxCases {
 		c.Res.Violations = append(c.Res.Violations, cs)
 	}
 	c.Stat("violations")
